@@ -439,4 +439,93 @@ func (q *seqRun) offline() {
 	}
 	fs := CheckOffline(in, q.res.sit)
 	q.res.Findings = append(q.res.Findings, fs...)
+	q.offlineDefinitions(in.Events)
+}
+
+func eqMap(a, b map[string]string) bool {
+	if len(a) != len(b) {
+		return false
+	}
+	for k, v := range a {
+		if w, ok := b[k]; !ok || w != v {
+			return false
+		}
+	}
+	return true
+}
+
+// offlineDefinitions (C16): every task a job runs is exactly what its pipeline defined when the job was accepted
+func (q *seqRun) offlineDefinitions(evs []core.Event) {
+	fireCall := map[string]int64{}
+	for i := range evs {
+		e := &evs[i]
+		if e.Kind == core.KCall && e.Op == "fire-delay" {
+			if _, ok := fireCall[e.Job]; !ok {
+				fireCall[e.Job] = e.Seq
+			}
+		}
+	}
+	ran := map[string]map[string]bool{}
+	for i := range evs {
+		e := &evs[i]
+		if e.Kind != core.KRunEnter {
+			continue
+		}
+		j := q.byID[e.Job]
+		if j == nil {
+			continue
+		}
+		if ran[e.Job] == nil {
+			ran[e.Job] = map[string]bool{}
+		}
+		ran[e.Job][e.Task] = true
+		info, _ := e.Data.(core.RunInfo)
+		td, ok := j.Spec.Def.Tasks[e.Task]
+		q.res.sit("C16", fmt.Sprintf("run reloaded=%v envs=%v", q.reloaded, len(td.Env) > 0 || len(j.Spec.Def.Env) > 0))
+		if !ok {
+			q.find([]string{"C16"}, "C16:task-not-in-accepted-definition", "J%d ran task %s which its pipeline did not define when the job was accepted (tasks then: %v)", j.Ord, e.Task, j.Spec.Graph.Names)
+			continue
+		}
+		if !eqStr(info.Commands, td.Script) {
+			q.find([]string{"C16"}, "C16:script-differs-from-accepted-definition", "J%d task %s ran commands %q, accepted definition says %q", j.Ord, e.Task, info.Commands, td.Script)
+		}
+		if !eqMap(info.TaskEnv, td.Env) {
+			q.find([]string{"C16", "C18"}, "C16:task-env-differs-from-accepted-definition", "J%d task %s got task env %v, accepted definition says %v", j.Ord, e.Task, info.TaskEnv, td.Env)
+		}
+		if !eqMap(info.RunnerEnv, j.Spec.Def.Env) {
+			q.find([]string{"C16", "C18"}, "C16:pipeline-env-differs-from-accepted-definition", "J%d task %s got pipeline env %v, accepted definition says %v", j.Ord, e.Task, info.RunnerEnv, j.Spec.Def.Env)
+		}
+		if info.AllowFailure != td.AllowFailure {
+			q.find([]string{"C16"}, "C16:allow-failure-differs-from-accepted-definition", "J%d task %s allow_failure=%v, accepted definition says %v", j.Ord, e.Task, info.AllowFailure, td.AllowFailure)
+		}
+		for k, v := range j.Vars {
+			if k == "__jobID" {
+				continue
+			}
+			if fmt.Sprint(info.Vars[k]) != fmt.Sprint(v) {
+				q.find([]string{"C16", "C18"}, "C18:job-variable-differs", "J%d task %s got variable %s=%v, the job was scheduled with %v", j.Ord, e.Task, k, info.Vars[k], v)
+			}
+		}
+		if info.Vars["__jobID"] != e.Job {
+			q.find([]string{"C18"}, "C18:job-identity-variable", "J%d task %s carries job identity %v", j.Ord, e.Task, info.Vars["__jobID"])
+		}
+		if j.Spec.Def.StartDelay > 0 {
+			if fc, ok := fireCall[e.Job]; !ok || fc > e.Seq {
+				q.find([]string{"C16", "C07"}, "C16:start-delay-of-accepted-definition-ignored", "J%d was accepted under a start delay but task %s began before the delay expired", j.Ord, e.Task)
+			}
+		}
+	}
+	// a plain-success job ran exactly the tasks of the definition it was accepted under
+	final := q.sys.Snapshot(-1)
+	for _, j := range q.jobs {
+		oj := final.ByID(j.ID)
+		if oj == nil || !oj.Completed || oj.Canceled || oj.HasError {
+			continue
+		}
+		for _, n := range j.Spec.Graph.Names {
+			if !ran[j.ID][n] {
+				q.find([]string{"C16", "C02"}, "C16:task-of-accepted-definition-not-run", "J%d completed successfully without running task %s of the definition it was accepted under", j.Ord, n)
+			}
+		}
+	}
 }
